@@ -344,6 +344,7 @@ Proof.
     set (size := if seekable then _ else 0%Z).
     destruct (size =? 0)%Z; auto.
     destruct (t_wrote_header t) eqn:Ewh0; auto.
+    destruct (negb (has_body t)); auto.
     set (t1 := if match t_clen t with Some n => negb (n =? size)%Z | None => true end then _ else t).
     assert (G1 : Good (t1, ch)).
     { subst t1. destruct (match t_clen t with Some n => negb (n =? size)%Z | None => true end); auto.
